@@ -21,6 +21,96 @@ def natTable (H W : Nat) (f : Nat → Nat → Float) : Json :=
 def parseBits (a : Array Json) : Option (List Float) :=
   a.toList.mapM (fun j => (j.getNat?).toOption.map floatOfBits)
 
+/-! ### a concrete Fourier service at `Float` (separable O(HW(H+W)) DFT, numpy's sign convention) for running the model of the
+integer-stack path (`doseFilterInt`) on real pixel data.  Like `numpy.fft` for the code under test it is a SERVICE of the model (a
+field of `FFT`), not part of it; the harness probes it against `numpy.fft.fft2` through every answer it gives. -/
+
+structure CArr where
+  re : FloatArray
+  im : FloatArray
+
+/-- real images as row-major float arrays, together with a memoised (computed at most once, on first use) spectrum: the model asks
+the service for `fft2 image [v, u]` coefficient by coefficient -/
+structure FImg where
+  data : FloatArray
+  spec : Thunk CArr
+
+def twoPi : Float := 6.283185307179586476925286766559
+
+/-- `out[r, k] = Σ_j a[r, j] · exp(sgn · 2πi · j k / n)` along the fastest axis of an `rows × n` array -/
+def dftFast (rows n : Nat) (sgn : Float) (a : CArr) : CArr := Id.run do
+  let mut twr := FloatArray.emptyWithCapacity n
+  let mut twi := FloatArray.emptyWithCapacity n
+  for m in [0:n] do
+    let ang := sgn * twoPi * m.toFloat / n.toFloat
+    twr := twr.push (Float.cos ang)
+    twi := twi.push (Float.sin ang)
+  let mut re := FloatArray.emptyWithCapacity (rows * n)
+  let mut im := FloatArray.emptyWithCapacity (rows * n)
+  for r in [0:rows] do
+    for k in [0:n] do
+      let mut sr := 0.0
+      let mut si := 0.0
+      for j in [0:n] do
+        let m := (j * k) % n
+        let xr := a.re.get! (r * n + j)
+        let xi := a.im.get! (r * n + j)
+        let tr := twr.get! m
+        let ti := twi.get! m
+        sr := sr + (xr * tr - xi * ti)
+        si := si + (xr * ti + xi * tr)
+      re := re.push sr
+      im := im.push si
+  return ⟨re, im⟩
+
+/-- transpose of a `rows × cols` row-major array -/
+def transposeC (rows cols : Nat) (a : CArr) : CArr := Id.run do
+  let mut re := FloatArray.emptyWithCapacity (rows * cols)
+  let mut im := FloatArray.emptyWithCapacity (rows * cols)
+  for c in [0:cols] do
+    for r in [0:rows] do
+      re := re.push (a.re.get! (r * cols + c))
+      im := im.push (a.im.get! (r * cols + c))
+  return ⟨re, im⟩
+
+/-- unnormalised 2-D DFT of an `H × W` array: along x, then along y -/
+def dft2F (H W : Nat) (sgn : Float) (a : CArr) : CArr :=
+  transposeC W H (dftFast W H sgn (transposeC H W (dftFast H W sgn a)))
+
+/-- an image with its (lazy, memoised) forward transform -/
+def mkImg (H W : Nat) (data : FloatArray) : FImg :=
+  ⟨data, Thunk.mk fun _ => dft2F H W (-1.0) ⟨data, FloatArray.mk (Array.replicate (H * W) 0.0)⟩⟩
+
+/-- `np.fft.fft2` on real images / `np.fft.ifft2(·).real` at Float -/
+def floatDFT (H W : Nat) : FFT FImg Float H W :=
+  { fft2 := fun img v u =>
+      let c := img.spec.get
+      ⟨c.re.get! (v.val * W + u.val), c.im.get! (v.val * W + u.val)⟩
+    ifft2re := fun S => Id.run do
+      let mut re := FloatArray.emptyWithCapacity (H * W)
+      let mut im := FloatArray.emptyWithCapacity (H * W)
+      for hv : v in [0:H] do
+        for hu : u in [0:W] do
+          let z := S ⟨v, hv.2.1⟩ ⟨u, hu.2.1⟩
+          re := re.push z.re
+          im := im.push z.im
+      let c := dft2F H W 1.0 ⟨re, im⟩
+      let n := (H * W).toFloat
+      let mut out := FloatArray.emptyWithCapacity (H * W)
+      for i in [0:H * W] do
+        out := out.push (c.re.get! i / n)
+      return mkImg H W out }
+
+/-- truncation toward zero, as numpy converts a float to an integer on assignment into an integer array -/
+def truncZ (f : Float) : Int := if f ≥ 0.0 then (Float.floor f).toInt64.toInt else (Float.ceil f).toInt64.toInt
+
+/-- integer images as row-major arrays of integers -/
+def floatIO (H W : Nat) : IntIO FImg (Array Int) :=
+  { ofInt := fun a => mkImg H W (FloatArray.mk (a.map Float.ofInt))
+    trunc := fun img => img.data.data.map truncZ }
+
+def parseInts (a : Array Json) : Option (Array Int) := a.mapM (fun j => (j.getInt?).toOption)
+
 def handle (j : Json) : Json :=
   match getStr? j "op", getNat? j "W", getNat? j "H", getNat? j "px" with
   | some op, some W, some H, some pxb =>
@@ -37,6 +127,19 @@ def handle (j : Json) : Json :=
           Json.mkObj [("gain", Json.arr (out.map (fun s => tableJson (fun v u => (s v u).re))).toArray),
                       ("imagzero", Json.bool (out.all (fun s =>
                         (List.finRange H).all (fun v => (List.finRange W).all (fun u => (s v u).im == 0.0)))))]
+      | _, _ => err "bad-args"
+    | "intstack" =>
+      -- the model of the integer-stack path on the real pixel data: `doseFilterInt` (what the code does today, C16-K1), and next to
+      -- it the float result of `doseFilter` on the converted images (so that the harness can see where truncation is decided by rounding noise)
+      match getArr? j "doses" >>= parseBits, getArr? j "images" >>= (fun a => a.mapM (fun x => (x.getArr?).toOption >>= parseInts)) with
+      | some doses, some imgs =>
+        if imgs.any (fun a => a.size != H * W) then err "bad-args" else
+        let fft := floatDFT H W
+        match doseFilterInt floatOps g fft (floatIO H W) px imgs.toList doses, doseFilter floatOps g fft px (imgs.toList.map (floatIO H W).ofInt) doses with
+        | some out, some flt =>
+          Json.mkObj [("out", Json.arr (out.map (fun a => Json.arr (a.map (fun (n : Int) => Json.num (JsonNumber.fromInt n))))).toArray),
+                      ("filtered", Json.arr (flt.map (fun (a : FImg) => Json.arr (a.data.data.map (fun f => (bitsOfFloat f : Json))))).toArray)]
+        | _, _ => err "reject:IndexError"
       | _, _ => err "bad-args"
     | "arrays" =>
       match getNat? j "dose" with
